@@ -131,3 +131,55 @@ func VxC15SnapshotIsolation() {
 	vx.Assert(i == len(view), "snapshot-scan-yields-exactly-the-old-keys")
 	_ = it.Close()
 }
+
+// C15-H6: an iterator is a point-in-time view. The Pebble backends read an iterator from the state as of its
+// creation; the memory backend mimics that by copying the matching keys and values when the iterator is
+// opened. Later writes to the database - an overwrite with a value of the same or another length, a delete,
+// a range delete, a committed batch - must not show through an iterator that is already open: the scan yields
+// exactly the keys and values of the moment it was opened.
+func VxC15OpenIteratorIsPointInTime() {
+	vx.Bound("database with 1..2 keys (length 0..2, symbolic bytes, 1-byte values); iterator over everything opened; then 1 operation (thorough: <= 2) {Put of an arbitrary key (an existing one included) with a 1-byte value, Put with a 2-byte value, Delete, DeleteRange, batch Put + Write}; full ordered scan through the open iterator")
+	d := New()
+	var model []vxKV
+	n := 1 + vx.Choice("nkeys", 2)
+	for i := 0; i < n; i++ {
+		k, v := vxKey("k"), []byte{vx.U8("v")}
+		_ = d.Put(k, v)
+		model = vxModelPut(model, k, v)
+	}
+	it, ierr := d.NewIterator(nil, false)
+	vx.Assert(ierr == nil, "iterator-opens")
+	nops := 1
+	if vx.Thorough() {
+		nops = 1 + vx.Choice("nops", 2)
+	}
+	for i := 0; i < nops; i++ {
+		switch vx.Choice("op", 5) {
+		case 0:
+			_ = d.Put(vxKey("w"), []byte{vx.U8("wv")})
+			vx.Cover("overwrite-with-a-value-of-the-same-length")
+		case 1:
+			_ = d.Put(vxKey("w"), []byte{vx.U8("wv"), vx.U8("wv2")})
+		case 2:
+			_ = d.Delete(vxKey("w"))
+		case 3:
+			_ = d.DeleteRange(vxKey("s"), vxKey("e"))
+		case 4:
+			b := d.NewBatch()
+			_ = b.Put(vxKey("w"), []byte{vx.U8("wv")})
+			vx.Assert(b.Write() == nil, "batch-commits")
+		}
+	}
+	view := vxModelView(model, nil, false)
+	i := 0
+	for ok := it.First(); ok; ok = it.Next() {
+		if i < len(view) {
+			val, _ := it.Value()
+			vx.Assert(bytes.Equal(it.Key(), view[i].k), "open-iterator-yields-the-keys-of-its-creation")
+			vx.Assert(bytes.Equal(val, view[i].v), "open-iterator-yields-the-values-of-its-creation")
+		}
+		i++
+	}
+	vx.Assert(i == len(view), "open-iterator-yields-exactly-the-keys-of-its-creation")
+	_ = it.Close()
+}
